@@ -8,11 +8,11 @@ import (
 )
 
 type harness struct {
-	name  string // pkgdir.FuncName or pkgdir.FuncName#i
-	fn    *ssa.Function
-	pkg   string
-	param *ssa.Function // for VerifP_*: the companion _N function
-	arg   int
+	name   string // pkgdir.FuncName or pkgdir.FuncName#i
+	fn     *ssa.Function
+	pkg    string
+	param  *ssa.Function // for VerifP_*: the companion _N function
+	arg    int
 	hasArg bool
 }
 
